@@ -14,11 +14,12 @@ import (
 // /verif/specs/*.spec (assumed contracts of code outside /repo, spec functions, axioms).
 
 type Clause struct {
-	Name  string
-	Props []string // empty = all props of the function
-	Expr  SExpr
-	Src   string
-	Line  int
+	Name    string
+	Props   []string // empty = all props of the function
+	Expr    SExpr
+	Src     string
+	Line    int
+	Assumed bool // ensures-assumed: used by callers, not proved
 }
 
 type GhostDecl struct {
@@ -366,7 +367,7 @@ func (cs *ContractSet) LoadContractFile(path string, pkgName string) error {
 					return fail(i, "param NAME: spec")
 				}
 				cur.ParamSpecs[m[1]] = m[2]
-			case "requires", "ensures", "invariant", "ghost-assume", "onpanic":
+			case "requires", "ensures", "ensures-assumed", "invariant", "ghost-assume", "onpanic":
 				props, name, src, err := splitPropsName(rest)
 				if err != nil {
 					return fail(i, "%v", err)
@@ -384,6 +385,11 @@ func (cs *ContractSet) LoadContractFile(path string, pkgName string) error {
 				case "onpanic":
 					cur.OnPanic = append(cur.OnPanic, cl)
 				case "ensures":
+					cur.Ensures = append(cur.Ensures, cl)
+				case "ensures-assumed":
+					// a postcondition that callers may use but that is NOT proved about the body: an explicit,
+					// reported assumption (listed in the evidence of every run that uses it)
+					cl.Assumed = true
 					cur.Ensures = append(cur.Ensures, cl)
 				case "invariant":
 					if curLoop == nil {
